@@ -162,7 +162,7 @@ class PropertyCall:
         self.q, self.o = q, o
 
 
-SPEC_NAMES = {'TXT', 'ALL', 'SAME_ITEMS', 'MATCH', 'NOMATCH'}
+SPEC_NAMES = {'TXT', 'ALL', 'SAME_ITEMS', 'MATCH', 'NOMATCH', 'UB', 'SORTED', 'SUFFIX'}
 
 
 class ClosureEnv:
@@ -1030,6 +1030,30 @@ class Exec:
         return [(st, Func(self.fn + '.<locals>.<lambda>', node=node, closure=ClosureEnv(st.env)))]
 
     def e_GeneratorExp(self, node, st):
+        # a generator over a concrete tuple with a non-forking element expression is evaluated eagerly to a tuple
+        # (only its elements are ever observed: membership tests, join, tuple())
+        if len(node.generators) == 1 and not node.generators[0].ifs and isinstance(node.generators[0].target, ast.Name):
+            g = node.generators[0]
+            try:
+                r = self.eval(g.iter, st)
+                if len(r) == 1 and isinstance(r[0][1], tuple) and not self.W.is_tt(r[0][1]):
+                    s1, seq = r[0]
+                    name = g.target.id
+                    saved = s1.env.get(name, UNBOUND)
+                    vals = []
+                    for x in seq:
+                        s1.env[name] = x
+                        rr = self.eval(node.elt, s1)
+                        if len(rr) != 1:
+                            raise OutsideSubset('forking generator element')
+                        vals.append(rr[0][1])
+                    if saved is UNBOUND:
+                        s1.env.pop(name, None)
+                    else:
+                        s1.env[name] = saved
+                    return [(s1, tuple(vals))]
+            except (OutsideSubset, PyExc):
+                pass
         return [(st, Opaque('genexp', (node, st)))]
 
     def e_ListComp(self, node, st):
